@@ -224,11 +224,60 @@ func init() {
 							if r == nil {
 								continue
 							}
+							// every third combination hands the triangle over unclosed (three vertices), started at each vertex in
+							// turn: where the start vertex is inside the box the ring is closed implicitly
+							c16Unclosed, c16AsCollection = (a+b+d+bi)%3 == 0, false
+							if c16Unclosed {
+								k := (a + bi) % 3
+								r = append(append([][2]int{}, r[k:]...), r[:k]...)
+							}
 							c16Smart(c, "Ring", box, [][][][2]int{{closed(scale60(r))}}, o)
 						}
 					}
 				}
 			}
+		}
+		// (1b) a hole that stays inside the box while the outer ring is cut by one side of the box, with the hole's first
+		// vertex level with an odd number of outer-ring vertices on its right or left (the ray of the owner lookup runs
+		// through them), through the MultiPolygon entry (the lookup is never bypassed there)
+		for i, made := 0, 0; i < c.pick(4000, 60000) && made < c.pick(250, 4000); i++ {
+			o := 1 - 2*c.rng.Intn(2)
+			starBand = true
+			ring := starRing(c, 7+c.rng.Intn(6), [2]int{7, 7}, 6)
+			starBand = false
+			if ring == nil {
+				continue
+			}
+			ring = orient(ring, o)
+			hx, hy := 1+c.rng.Intn(5), 1+c.rng.Intn(5)
+			hole := [][2]int{{hx, hy}, {hx, hy + 1}, {hx + 1, hy + 1}, {hx + 1, hy}}
+			rot := c.rng.Intn(4)
+			hole = append(append([][2]int{}, hole[rot:]...), hole[:rot]...)
+			if o < 0 {
+				hole = reverse2(hole)
+			}
+			if !squareInside(ring, hole) {
+				continue
+			}
+			right, left := 0, 0
+			for _, v := range ring {
+				if v[1] == hole[0][1] && v[0] > hole[0][0] {
+					right++
+				}
+				if v[1] == hole[0][1] && v[0] < hole[0][0] {
+					left++
+				}
+			}
+			if right%2 == 0 && left%2 == 0 {
+				continue
+			}
+			box := [4]int{(hx - 1) * S, -1 * S, 8 * S, 8 * S} // cuts on the left of the hole
+			if c.rng.Intn(2) == 0 {
+				box = [4]int{-1 * S, -1 * S, (hx + 2) * S, 8 * S} // or on its right
+			}
+			made++
+			c16Unclosed, c16AsCollection = false, false
+			c16Smart(c, []string{"MultiPolygon", "Polygon", "Geometry"}[c.rng.Intn(3)], box, [][][][2]int{{closed(scale60(ring)), closed(scale60(hole))}}, o)
 		}
 		// (2) seeded star-shaped rings (3..12 vertices, vertices on box edges and corners arise densely), polygons
 		// with a hole, multipolygons, both orientations, all entry points; open sub-paths
@@ -503,7 +552,12 @@ func squareInside(ring, sq [][2]int) bool {
 		if ((d1 > 0 && d2 < 0) || (d1 < 0 && d2 > 0)) && ((d3 > 0 && d4 < 0) || (d3 < 0 && d4 > 0)) {
 			return true
 		}
-		return d1 == 0 || d2 == 0 || d3 == 0 || d4 == 0 // touching counts as meeting (conservative)
+		// touching counts as meeting: an end point of one segment lying on the other (collinear AND within its extent -
+		// a ring vertex merely level with a side of the square, somewhere else on that line, does not touch it)
+		on := func(p, a, b [2]int) bool {
+			return min(a[0], b[0]) <= p[0] && p[0] <= max(a[0], b[0]) && min(a[1], b[1]) <= p[1] && p[1] <= max(a[1], b[1])
+		}
+		return (d1 == 0 && on(a, c, d)) || (d2 == 0 && on(b, c, d)) || (d3 == 0 && on(c, a, b)) || (d4 == 0 && on(d, a, b))
 	}
 	for i := range ring {
 		for j := range sq {
